@@ -59,13 +59,20 @@ Definition mp_from (t1 : utree) (L : list (list nat * utree)) (st : mp_state) : 
   | MPBest v _ => exists pn, In pn L /\ view_from t1 (fst pn) = Some v
   end.
 
+Lemma reroot_midpoint_gen_eq t : 2 <= degree (unroot t) -> reroot_midpoint t = reroot_midpoint_gen (unroot t).
+Proof.
+  intros H. unfold reroot_midpoint. cbv zeta.
+  destruct (Nat.ltb (degree (unroot t)) 2) eqn:E; [apply Nat.ltb_lt in E; lia | reflexivity].
+Qed.
+
 Lemma reroot_midpoint_inv t t' :
+  2 <= degree (unroot t) ->
   reroot_midpoint t = Ok t' ->
   exists q lf v pp k cf eP eC,
     In (q, lf) (tip_paths (unroot t)) /\ view_from (unroot t) q = Some v /\
     cut_and_root (tv_tree v) pp k cf eP eC = Some t'.
 Proof.
-  unfold reroot_midpoint. cbv zeta.
+  intros D0. rewrite (reroot_midpoint_gen_eq t D0). unfold reroot_midpoint_gen.
   set (t1 := unroot t).
   set (f := fun (st : res (mp_state * Q)) (pn : list nat * utree) => _).
   assert (INV : forall l acc,
@@ -102,8 +109,8 @@ Theorem reroot_midpoint_wf_leaves t t' :
   wf t' = true /\ degree t' = 2 /\ Permutation (leaves t') (leaves t).
 Proof.
   intros Hwf Hd Hi H.
-  destruct (reroot_midpoint_inv _ _ H) as (q&lf&v&pp&k&cf&eP&eC&Hin&Hv&Hc).
   destruct (unroot_stage t Hwf Hd Hi) as [W1 [D1 [L1 _]]].
+  destruct (reroot_midpoint_inv _ _ D1 H) as (q&lf&v&pp&k&cf&eP&eC&Hin&Hv&Hc).
   apply tip_paths_In in Hin as [Hq _].
   destruct (view_from_spec _ _ _ _ W1 D1 Hq Hv) as [W2 [D2 [L2 _]]].
   destruct (cut_and_root_wf_leaves _ _ _ _ _ _ _ W2 D2 Hc) as [W4 [D4 L4]].
